@@ -572,6 +572,53 @@ def _unpack_filter_value(
         )
 
 
+def _serialize_composite_filter(
+    root: LDAPFilter,
+) -> str:
+    """Serializes an AND, OR, or NOT filter.
+
+    Builds the string of a composite filter without recursing for each level
+    of nesting. This ensures a filter nested as deeply as what
+    :func:`LDAPFilter.from_string` accepts can also be converted back into a
+    string.
+
+    Args:
+        root: The AND, OR, or NOT filter to serialize.
+
+    Returns:
+        str: The filter string.
+    """
+    parts: t.List[str] = []
+    pending: t.List[t.Union[str, LDAPFilter]] = [root]
+    while pending:
+        item = pending.pop()
+        if isinstance(item, str):
+            parts.append(item)
+            continue
+
+        # A subclass with its own __str__ is asked for its string instead.
+        item_str = type(item).__str__
+        if isinstance(item, FilterAnd) and (item is root or item_str is FilterAnd.__str__):
+            pending.append(")")
+            pending.extend(reversed(item.filters))
+            pending.append("(&")
+
+        elif isinstance(item, FilterOr) and (item is root or item_str is FilterOr.__str__):
+            pending.append(")")
+            pending.extend(reversed(item.filters))
+            pending.append("(|")
+
+        elif isinstance(item, FilterNot) and (item is root or item_str is FilterNot.__str__):
+            pending.append(")")
+            pending.append(item.filter)
+            pending.append("(!")
+
+        else:
+            parts.append(str(item))
+
+    return "".join(parts)
+
+
 def _serialize_filter_value(
     value: bytes,
 ) -> str:
@@ -820,8 +867,7 @@ class FilterAnd(LDAPFilter):
     filters: t.List[LDAPFilter]
 
     def __str__(self) -> str:
-        filter_strings = "".join(str(f) for f in self.filters)
-        return f"(&{filter_strings})"
+        return _serialize_composite_filter(self)
 
     def pack(
         self,
@@ -870,8 +916,7 @@ class FilterOr(LDAPFilter):
     filters: t.List[LDAPFilter]
 
     def __str__(self) -> str:
-        filter_strings = "".join(str(f) for f in self.filters)
-        return f"(|{filter_strings})"
+        return _serialize_composite_filter(self)
 
     def pack(
         self,
@@ -920,7 +965,7 @@ class FilterNot(LDAPFilter):
     filter: LDAPFilter
 
     def __str__(self) -> str:
-        return f"(!{self.filter!s})"
+        return _serialize_composite_filter(self)
 
     def pack(
         self,
